@@ -14,6 +14,7 @@ pub enum ROp {
     Adv(usize),
     Vect(usize),
     CopySlice(usize),
+    TryCopySlice(usize),
     CopyBytes(usize),
     GetU8,
     GetU32Le,
@@ -116,6 +117,41 @@ pub fn apply<B: Buf + ?Sized>(b: &mut B, op: &ROp, rest: &mut Vec<u8>, consumed:
             }
             rest.drain(..k);
             *consumed += k;
+        }
+        ROp::TryCopySlice(k) => {
+            let k = *k;
+            let mut dst = vec![0x22u8; k];
+            let r = catch(|| b.try_copy_to_slice(&mut dst));
+            match r {
+                Err(e) => return Step::Bad("try_copy_to_slice-panic".into(), format!("try_copy_to_slice({k}) with {n0} remaining panicked: {e}")),
+                Ok(Ok(())) => {
+                    if k > n0 {
+                        return Step::Bad("try_copy_to_slice-ok-short".into(), format!("try_copy_to_slice({k}) with {n0} remaining returned Ok"));
+                    }
+                    if dst[..] != rest[..k] {
+                        return Step::Bad("try_copy_to_slice-bytes".into(), format!("try_copy_to_slice({k}) returned {:?}, expected {:?}", &dst[..k.min(16)], &rest[..k.min(16)]));
+                    }
+                    rest.drain(..k);
+                    *consumed += k;
+                }
+                Ok(Err(e)) => {
+                    if k <= n0 {
+                        return Step::Bad("try_copy_to_slice-err-enough".into(), format!("try_copy_to_slice({k}) with {n0} remaining returned {e:?}"));
+                    }
+                    if e.requested != k || e.available != n0 {
+                        return Step::Bad("try_copy_to_slice-err-fields".into(), format!("try_copy_to_slice({k}) with {n0} remaining returned {e:?}"));
+                    }
+                    // Display / io::Error conversions carry the same numbers
+                    let text = format!("{e}");
+                    if !text.contains(&k.to_string()) || !text.contains(&n0.to_string()) {
+                        return Step::Bad("try_get_error-display".into(), format!("TryGetError Display {text:?} does not mention {k} and {n0}"));
+                    }
+                    let io: std::io::Error = e.into();
+                    if io.kind() != std::io::ErrorKind::Other {
+                        return Step::Bad("try_get_error-io".into(), "io::Error::from(TryGetError) has an unexpected kind".into());
+                    }
+                }
+            }
         }
         ROp::CopyBytes(k) => {
             let k = *k;
@@ -221,6 +257,7 @@ fn opname(op: &ROp) -> &'static str {
         ROp::Adv(_) => "advance",
         ROp::Vect(_) => "chunks_vectored",
         ROp::CopySlice(_) => "copy_to_slice",
+        ROp::TryCopySlice(_) => "try_copy_to_slice",
         ROp::CopyBytes(_) => "copy_to_bytes",
         ROp::GetU8 => "get_u8",
         ROp::GetU32Le => "get_u32_le",
@@ -311,6 +348,10 @@ pub fn run_case(o: &mut Obs, spec: &Spec, ops: &[ROp], path: usize, fin: Final, 
                 return crate::rng::fnv_u64(dg, 5);
             }
             consumed += k;
+            if it.get_ref().remaining() != rest.len() - k || it.get_mut().remaining() != rest.len() - k {
+                report(o, spec, "into_iter-get_ref", case, "IntoIter::get_ref()/get_mut() do not show the buffer advanced by the items taken", true);
+                return crate::rng::fnv_u64(dg, 5);
+            }
             root = it.into_inner();
         }
         Final::ReaderRead(k) => {
@@ -326,7 +367,7 @@ pub fn run_case(o: &mut Obs, spec: &Spec, ops: &[ROp], path: usize, fin: Final, 
                     return crate::rng::fnv_u64(dg, 5);
                 }
             }
-            if rd.get_ref().remaining() != rest.len() - want {
+            if rd.get_ref().remaining() != rest.len() - want || rd.get_mut().remaining() != rest.len() - want {
                 report(o, spec, "reader-get_ref", case, "Reader::get_ref().remaining() after read is wrong", true);
                 return crate::rng::fnv_u64(dg, 5);
             }
@@ -482,6 +523,7 @@ pub fn gen_op(r: &mut Rng, rest: usize, root_is_take: bool) -> ROp {
         1 => ROp::Chunk,
         2 | 3 => ROp::Adv(k),
         4 => ROp::Vect(*r.pick(&[0usize, 1, 2, 3, 5, 17, 32])),
+        5 if r.chance(1, 2) => ROp::TryCopySlice(k),
         5 => ROp::CopySlice(k),
         6 => ROp::CopyBytes(k),
         7 => ROp::GetU8,
